@@ -430,11 +430,11 @@ PROPS["C03"] = {
 PROPS["C07"] = {
     "level": "other",
     "level_text": "Bounded symbolic execution of single events of the real loop code over a ghost kernel that keeps a descriptor ledger: every redirected system call (read, write, writev, epoll_ctl, close, accept, recvfrom, sendto, dup) asserts that the framework owns the descriptor number it passes, that nothing is closed twice and that user-owned (Dup) and foreign (re-used number) descriptors are never touched; run over the lifecycle events of C04 (all close causes, synchronous closes inside callbacks, stale requests after number re-use) plus close-with-unsent-output under a failing kernel, listener/poller close-once and Dup ownership.",
-    "level_note": "One event per harness (inductive through the representation invariant 'opened <=> registered <=> descriptor owned and not closed'); 'closed at the latest when Run returns' is reduced to closeConns/closeEventLoops/Poller.Close releasing everything exactly once (the goroutine choreography of Run/stop is C06, not claimed). Client enrol paths (socket.Dup + Trigger through the ants pool) are not executed: the descriptor leak on their error returns (DESIGN.md F11) is a reading-level finding outside this check. Trusted: go/ssa lowering, SSA->SMT translation, z3, ghost kernel.",
+    "level_note": "One event per harness (inductive through the representation invariant 'opened <=> registered <=> descriptor owned and not closed'); 'closed at the latest when Run returns' is reduced to closeConns/closeEventLoops/Poller.Close releasing everything exactly once (the goroutine choreography of Run/stop is C06, not claimed). Client.EnrollContext and EventLoop.Enroll are executed up to and including the protocol dispatch with a user net.Conn of a kind gnet does not serve and one injected setsockopt failure (the worker-pool Submit is redirected to a synchronous call): every error return after socket.Dup must have closed the duplicate (DESIGN.md F11, fixed). The *net.TCPConn/UnixConn/UDPConn branches and the successful hand-off (blocking on the loop goroutine) are not executed. Trusted: go/ssa lowering, SSA->SMT translation, z3, ghost kernel.",
     "design_ref": "DESIGN.md section 5 (loop-step family, C07)",
     "explanation": "Ledger assertions live in the ghost kernel (internal/vk, labels C07.*) and are therefore evaluated on every path of every loop-step harness of this unit.",
     "bounds": {"events": 1, "writes_per_event": 3},
-    "outside": ["Client.EnrollContext / eventloop.enroll worker goroutine", "interleavings with other goroutines opening descriptors (modelled as 'the number is foreign-owned' pre-states)"],
+    "outside": ["enrol branches that need a real *net.TCPConn/UnixConn/UDPConn and the successful hand-off to the loop goroutine", "interleavings with other goroutines opening descriptors (modelled as 'the number is foreign-owned' pre-states)"],
     "assumptions": ["ghost kernel contract"],
     "units": [dict(_LOOP_COMMON, name="loop-fd", files=["harness/gnet/vloop_world.go", "harness/gnet/c14_pick.go", "harness/gnet/c04_lifecycle.go", "harness/gnet/c07_fd.go"], cfg={"vcfg": {"nodes": 1}})],
 }
@@ -456,6 +456,16 @@ def _patch_units():
     us = PROPS["C12"]["units"]
     PROPS["C12"]["units"] = [zone_unit if u == "__LOOP_ZONE__" else u for u in us]
     PROPS["C17"]["units"].append(dict(zone_unit, name="loop-zone-c17"))
+    def el_enroll(src, out):
+        _LOOP_REWRITES["eventloop_unix.go"](src, out)
+        t = open(out).read()
+        a = "goroutine.DefaultWorkerPool.Submit(func() {"
+        if a not in t or "socket.Dup(int(fd))" not in t:
+            raise RuntimeError("eventloop_unix.go: enroll anchors not found")
+        t = t.replace(a, "vSubmit(func() {").replace("socket.Dup(int(fd))", "vk.DupIn(int(fd))")
+        open(out, "w").write(t + "\nvar _ = goroutine.DefaultWorkerPool // keep the import alive (verification overlay)\n")
+    enroll_rw = dict(_LOOP_REWRITES, **{"eventloop_unix.go": el_enroll, "client_unix.go": _vk_redirect([("socket.Dup(int(fd))", "vk.DupIn(int(fd))"), ("socket.SetSendBuffer(", "vk.SockOpt("), ("socket.SetRecvBuffer(", "vk.SockOpt("), ("socket.SetNoDelay(", "vk.SockOpt("), ("unix.Close(", "vk.Close(")])})
+    PROPS["C07"]["units"].append(dict(_LOOP_COMMON, name="loop-enroll", files=["harness/gnet/vloop_world.go", "harness/gnet/c14_pick.go", "harness/gnet/c07_enroll.go"], rewrites=enroll_rw, cfg={"vcfg": {"nodes": 1}}))
     PROPS["C15"]["units"].append(dict(_LOOP_COMMON, name="loop-assign", files=["harness/gnet/vloop_world.go", "harness/gnet/c14_pick.go", "harness/gnet/c15_assign.go"], cfg={"vcfg": {"nodes": 1}}))
 
 
